@@ -39,6 +39,7 @@ from .replay import key_of, term_sig as _term_sig0
 funsor.set_backend("numpy")
 
 VIAS = ("compile", "pickle", "as_code", "trace_function")
+UNUSED_NAME = "zz_unused"
 EXTRA_NAME = "zz_unexpected"
 
 
@@ -476,6 +477,26 @@ def programs_of(f, a, pts):
             out.append(("trace_function", "program", tp))
         except Exception as e:
             out.append(("trace_function", "violation", ("trace_raises", "%s: %s" % (type(e).__name__, e))))
+        # the same function traced with one more argument that it does not use (listed last): the
+        # program must still return what the function returns (S->C only; a program's output is
+        # env[-1], which is the LAST input when the function returns one of its arguments)
+        try:
+            extra = np.array(0.25)
+
+            def fn2(**kw):
+                return fn(**{k: v for k, v in kw.items() if k != UNUSED_NAME})
+            d2 = dict(data)
+            d2[UNUSED_NAME] = extra
+            with np.errstate(all="ignore"):
+                tp2 = trace_function(fn2, d2, allow_constants=True)
+
+            def call2(**kw):
+                kw = dict(kw)
+                kw[UNUSED_NAME] = extra.copy()
+                return tp2(**kw)
+            out.append(("trace_function_unused_input", "callable", call2))
+        except Exception as e:  # noqa  (judged through the plain trace above)
+            pass
     return out
 
 
